@@ -187,91 +187,7 @@ def run(ctx):
     for f, c in R.foreign_send:
         ctx.violation("A1", f, "direct-send", "socket write outside the Client command sender", node=c)
 
-    # ---- A3 writes of the flag ------------------------------------------------
-    ctx.rule("A3", "authenticated is set truthy only in the authenticator under the mechanism's success; "
-                   "mechanisms return True only on OK; connect resets the flag")
-    writes = [w for w in attr_writes(ctx.program, "authenticated", modules=["managesieve"])]
-    ctx.need("A3", "writes of .authenticated", len(writes), 2)
-    for f, node, kind, text in writes:
-        st = node._parent
-        val = st.value if isinstance(st, (ast.Assign, ast.AnnAssign)) else None
-        cv = const_value(ctx.program, f, val) if val is not None else TOP
-        falsy = cv is not TOP and not cv
-        if falsy:
-            ctx.holds("A3", "%s: %s" % (f.qualname, norm(st)), "falsy store")
-            continue
-        if f.name != auth.name or f.cls is not R.cls:
-            ctx.violation("A3", f, "truthy-store-outside-authenticator",
-                          "`authenticated` may become true outside the authenticator: %s" % norm(st), node=node,
-                          witness="script commands become possible without an AUTHENTICATE ... OK exchange")
-            continue
-        cfg = ctx.cfg(f)
-
-        def mech_success(fact):
-            e, pol = fact_call(fact)
-            if pol is not True or not isinstance(e, ast.Call):
-                return False
-            fn = e.func
-            if isinstance(fn, ast.Name):
-                # local bound to the getattr dispatch
-                for n in walk_no_nested(f.node):
-                    if isinstance(n, ast.Assign) and any(isinstance(t, ast.Name) and t.id == fn.id for t in n.targets):
-                        if isinstance(n.value, ast.Call) and call_name(n.value) == "getattr":
-                            return True
-                return False
-            if isinstance(fn, ast.Attribute) and fn.attr in mech:
-                return True
-            return False
-
-        nodes = cfg.nodes_for(st)
-        if not nodes:
-            raise AnalysisError("A3", "store not found in CFG")
-        if all(cfg.guarded(n, mech_success) for n in nodes):
-            ctx.holds("A3", "%s: %s" % (f.qualname, norm(st)), "on the success edge of the mechanism call")
-        else:
-            p = cfg.unguarded_path(nodes[0], mech_success)
-            ctx.violation("A3", f, "truthy-store-not-under-success",
-                          "`authenticated = %s` is reachable without the selected mechanism having succeeded" % norm(val),
-                          node=node, path=cfg.describe_path(p) if p else None,
-                          witness="server answers NO to AUTHENTICATE; a later listscripts() is sent anyway")
-    # mechanisms: True only on OK
-    ctx.need("A3", "mechanism functions", len(mech), 3)
-    for mname in mech:
-        f = R.methods[mname]
-        res = status_paths(ctx, R, f)
-        bad = [p for p in res if p["truthy"] is not False and p["last_code"] != "OK"]
-        if bad:
-            ctx.violation("A3", f, "mechanism-true-without-OK",
-                          "%s can return a truthy value although the final reply code is %s" % (
-                              f.qualname, bad[0]["last_code"]), node=bad[0]["node"] or f.node,
-                          witness="server answers NO to the last step of the exchange; connect() still reports success")
-        else:
-            ctx.holds("A3", "%s returns True only on OK" % f.qualname, "%d paths" % len(res))
-    # reset on reconnect
-    conn = connect_method(R, "A3")
-    cfgc = ctx.cfg(conn)
-    resets = []
-    for f, node, kind, text in writes:
-        if f is conn:
-            st = node._parent
-            cv = const_value(ctx.program, f, st.value) if isinstance(st, ast.Assign) else TOP
-            if cv is not TOP and not cv:
-                resets.extend(cfgc.nodes_for(st))
-    first_use = []
-    for c in self_calls(conn):
-        if c.func.attr in G.methods and (R.sender.name in G.reach_from([c.func.attr]) or
-                                         R.assembler.name in G.reach_from([c.func.attr])):
-            first_use.extend(cfgc.node_containing(c))
-    if not first_use:
-        raise AnalysisError("A3", "connect() does not call anything that talks to the server")
-    if resets and all(cfgc.dominates(resets, u) for u in first_use):
-        ctx.holds("A3", "%s resets authenticated before using the new connection" % conn.qualname)
-    else:
-        ctx.violation("A3", conn, "no-reset-on-connect",
-                      "connect() opens a new connection without resetting `authenticated`: the flag of a previous "
-                      "connection survives", node=conn.node,
-                      witness="connect() OK; connect() again, refused by the server (returns False); listscripts() "
-                              "writes LISTSCRIPTS on the unauthenticated connection")
+    conn = a3(ctx, R)
 
     # ---- A4 connect ordering --------------------------------------------------
     ctx.rule("A4", "connect: the authenticator is reached only with starttls false or after the TLS upgrade returned True")
@@ -472,6 +388,99 @@ def run(ctx):
         ctx.holds("A7", "%s called only from %s" % (auth.name, conn.name))
     ctx.extra["guarded_methods"] = sorted(guarded)
     ctx.extra["sender_sites"] = len(sites)
+
+
+def a3(ctx, R):
+    """A3 (shared with C16: `connect returns True iff the server accepted them`)."""
+    auth = authenticator(R, "A3")
+    mech = mechanisms(R)
+    G = R.graph
+    # ---- A3 writes of the flag ------------------------------------------------
+    ctx.rule("A3", "authenticated is set truthy only in the authenticator under the mechanism's success; "
+                   "mechanisms return True only on OK; connect resets the flag")
+    writes = [w for w in attr_writes(ctx.program, "authenticated", modules=["managesieve"])]
+    ctx.need("A3", "writes of .authenticated", len(writes), 2)
+    for f, node, kind, text in writes:
+        st = node._parent
+        val = st.value if isinstance(st, (ast.Assign, ast.AnnAssign)) else None
+        cv = const_value(ctx.program, f, val) if val is not None else TOP
+        falsy = cv is not TOP and not cv
+        if falsy:
+            ctx.holds("A3", "%s: %s" % (f.qualname, norm(st)), "falsy store")
+            continue
+        if f.name != auth.name or f.cls is not R.cls:
+            ctx.violation("A3", f, "truthy-store-outside-authenticator",
+                          "`authenticated` may become true outside the authenticator: %s" % norm(st), node=node,
+                          witness="script commands become possible without an AUTHENTICATE ... OK exchange")
+            continue
+        cfg = ctx.cfg(f)
+
+        def mech_success(fact):
+            e, pol = fact_call(fact)
+            if pol is not True or not isinstance(e, ast.Call):
+                return False
+            fn = e.func
+            if isinstance(fn, ast.Name):
+                # local bound to the getattr dispatch
+                for n in walk_no_nested(f.node):
+                    if isinstance(n, ast.Assign) and any(isinstance(t, ast.Name) and t.id == fn.id for t in n.targets):
+                        if isinstance(n.value, ast.Call) and call_name(n.value) == "getattr":
+                            return True
+                return False
+            if isinstance(fn, ast.Attribute) and fn.attr in mech:
+                return True
+            return False
+
+        nodes = cfg.nodes_for(st)
+        if not nodes:
+            raise AnalysisError("A3", "store not found in CFG")
+        if all(cfg.guarded(n, mech_success) for n in nodes):
+            ctx.holds("A3", "%s: %s" % (f.qualname, norm(st)), "on the success edge of the mechanism call")
+        else:
+            p = cfg.unguarded_path(nodes[0], mech_success)
+            ctx.violation("A3", f, "truthy-store-not-under-success",
+                          "`authenticated = %s` is reachable without the selected mechanism having succeeded" % norm(val),
+                          node=node, path=cfg.describe_path(p) if p else None,
+                          witness="server answers NO to AUTHENTICATE; a later listscripts() is sent anyway")
+    # mechanisms: True only on OK
+    ctx.need("A3", "mechanism functions", len(mech), 3)
+    for mname in mech:
+        f = R.methods[mname]
+        res = status_paths(ctx, R, f)
+        bad = [p for p in res if p["truthy"] is not False and p["last_code"] != "OK"]
+        if bad:
+            ctx.violation("A3", f, "mechanism-true-without-OK",
+                          "%s can return a truthy value although the final reply code is %s" % (
+                              f.qualname, bad[0]["last_code"]), node=bad[0]["node"] or f.node,
+                          witness="server answers NO to the last step of the exchange; connect() still reports success")
+        else:
+            ctx.holds("A3", "%s returns True only on OK" % f.qualname, "%d paths" % len(res))
+    # reset on reconnect
+    conn = connect_method(R, "A3")
+    cfgc = ctx.cfg(conn)
+    resets = []
+    for f, node, kind, text in writes:
+        if f is conn:
+            st = node._parent
+            cv = const_value(ctx.program, f, st.value) if isinstance(st, ast.Assign) else TOP
+            if cv is not TOP and not cv:
+                resets.extend(cfgc.nodes_for(st))
+    first_use = []
+    for c in self_calls(conn):
+        if c.func.attr in G.methods and (R.sender.name in G.reach_from([c.func.attr]) or
+                                         R.assembler.name in G.reach_from([c.func.attr])):
+            first_use.extend(cfgc.node_containing(c))
+    if not first_use:
+        raise AnalysisError("A3", "connect() does not call anything that talks to the server")
+    if resets and all(cfgc.dominates(resets, u) for u in first_use):
+        ctx.holds("A3", "%s resets authenticated before using the new connection" % conn.qualname)
+    else:
+        ctx.violation("A3", conn, "no-reset-on-connect",
+                      "connect() opens a new connection without resetting `authenticated`: the flag of a previous "
+                      "connection survives", node=conn.node,
+                      witness="connect() OK; connect() again, refused by the server (returns False); listscripts() "
+                              "writes LISTSCRIPTS on the unauthenticated connection")
+    return conn
 
 
 def status_paths(ctx, R, f, extra_oracle=None):
